@@ -1,7 +1,7 @@
 //! Message-stream workloads built from the reference encoders, with the reference record of what
 //! was encoded.
 
-use crate::icd::{self, T31Ref, T31Spec, VcpSpec, FRAME, FRAME_BODY};
+use crate::icd::{self, T31Ref, T31Spec, VcpSpec, FRAME, FRAME_BODY, HEADER};
 use crate::rng::Rng;
 use crate::tape::Tape;
 
@@ -171,8 +171,17 @@ pub fn build_volume_inner(tape: &mut Tape, max_records: usize, opts: &StreamOpts
         v.messages += s.msgs.len();
         v.radials += s.msgs.iter().filter(|m| m.mtype == 31).count();
         if inner_faults && !s.bytes.is_empty() {
-            match tape.weighted(&[3, 2, 2]) {
+            match tape.weighted(&[3, 2, 2, 2]) {
                 0 => {}
+                3 => {
+                    // field-directed extremes inside an otherwise intact payload
+                    let k = 1 + tape.draw(2);
+                    for _ in 0..k {
+                        if let Some(n) = extreme(tape, &mut s) {
+                            notes.push(format!("record {}: {} before compression", ri, n));
+                        }
+                    }
+                }
                 1 => {
                     // the uncompressed payload stops inside a message (prefer the last one)
                     let last = s.msgs.last().map(|m| m.off).unwrap_or(0);
@@ -195,3 +204,160 @@ pub fn build_volume_inner(tape: &mut Tape, max_records: usize, opts: &StreamOpts
     }
     (v, notes)
 }
+
+// ---------------------------------------------------------------------------------------------
+// field-directed extremes written at offsets the encoders report (used by C04 directly and by C06
+// inside payloads before compression)
+
+pub fn vcp_extreme(tape: &mut Tape, s: &mut Stream) -> Option<String> {
+    let idx: Vec<usize> = s.msgs.iter().enumerate().filter(|(_, m)| m.mtype == 5).map(|(i, _)| i).collect();
+    if idx.is_empty() {
+        return None;
+    }
+    let mi = idx[tape.draw(idx.len() as u64) as usize];
+    let base = s.msgs[mi].off + HEADER;
+    let (off, what, v) = match tape.draw(2) {
+        0 => (0usize, "message size", [0u16, 5, 10, 11, 65535][tape.draw(5) as usize]),
+        _ => (6usize, "cut count", [65535u16, 52, 53, 1000, 0][tape.draw(5) as usize]),
+    };
+    if base + off + 2 <= s.bytes.len() {
+        s.bytes[base + off..base + off + 2].copy_from_slice(&v.to_be_bytes());
+    }
+    Some(format!("message {} (VCP): {} := {}", mi, what, v))
+}
+
+pub fn extreme(tape: &mut Tape, s: &mut Stream) -> Option<String> {
+    if tape.draw(3) == 2 {
+        if let Some(n) = vcp_extreme(tape, s) {
+            return Some(n);
+        }
+    }
+    let idx: Vec<usize> = s.msgs.iter().enumerate().filter(|(_, m)| m.t31.is_some()).map(|(i, _)| i).collect();
+    if idx.is_empty() {
+        return None;
+    }
+    let mi = idx[tape.draw(idx.len() as u64) as usize];
+    let m = s.msgs[mi].clone();
+    let t = m.t31.as_ref().unwrap();
+    let base = m.off;
+    let b = &mut s.bytes;
+    let put16 = |b: &mut Vec<u8>, off: usize, v: u16| {
+        if off + 2 <= b.len() {
+            b[off..off + 2].copy_from_slice(&v.to_be_bytes());
+        }
+    };
+    let put32 = |b: &mut Vec<u8>, off: usize, v: u32| {
+        if off + 4 <= b.len() {
+            b[off..off + 4].copy_from_slice(&v.to_be_bytes());
+        }
+    };
+    let nblocks = t.blocks.len();
+    let kind = tape.weighted(&[2, 3, 3, 2, 2, 1, 1, 3]);
+    Some(match kind {
+        0 => {
+            let v = [65535u16, 0, 1, 255, 256, 11, 32768][tape.draw(7) as usize];
+            put16(b, base + t.off_block_count, v);
+            format!("message {}: block count := {}", mi, v)
+        }
+        1 if nblocks > 0 => {
+            let k = tape.draw(nblocks as u64) as usize;
+            let v = match tape.draw(7) {
+                0 => 0u32,
+                1 => 4,
+                2 => 31,
+                3 => (m.len - HEADER) as u32,
+                4 => (m.len - HEADER) as u32 - 1,
+                5 => 0xFFFF_FFFF,
+                _ => 0x7FFF_FFFF,
+            };
+            put32(b, base + t.off_pointers + 4 * k, v);
+            format!("message {}: pointer {} := {}", mi, k, v)
+        }
+        2 if nblocks > 1 => {
+            // overlapping / duplicated pointers
+            let k = tape.draw(nblocks as u64) as usize;
+            let j = tape.draw(nblocks as u64) as usize;
+            let target = (t.blocks[j].off - HEADER) as u32 + [0u32, 1, 4, 28][tape.draw(4) as usize];
+            put32(b, base + t.off_pointers + 4 * k, target);
+            format!("message {}: pointer {} := into block {} ({})", mi, k, j, target)
+        }
+        3 if nblocks > 0 => {
+            let k = tape.draw(nblocks as u64) as usize;
+            let names: [&[u8; 3]; 7] = [b"XYZ", b"ref", b"\xff\xfe\xfd", b"   ", b"SW\0", b"VOL", b"REF"];
+            let n = names[tape.draw(7) as usize];
+            let off = base + t.blocks[k].off + 1;
+            if off + 3 <= b.len() {
+                b[off..off + 3].copy_from_slice(n);
+            }
+            format!("message {}: block {} name := {:?}", mi, k, String::from_utf8_lossy(n))
+        }
+        4 => {
+            let moments: Vec<&icd::BlockMap> = t.blocks.iter().filter(|x| x.gates_off.is_some()).collect();
+            if moments.is_empty() {
+                return None;
+            }
+            let bm = moments[tape.draw(moments.len() as u64) as usize];
+            let v = [65535u16, 1841, 32768, 0][tape.draw(4) as usize];
+            put16(b, base + bm.gates_off.unwrap(), v);
+            format!("message {}: {} gate count := {}", mi, bm.name, v)
+        }
+        5 => {
+            let moments: Vec<&icd::BlockMap> = t.blocks.iter().filter(|x| x.word_off.is_some()).collect();
+            if moments.is_empty() {
+                return None;
+            }
+            let bm = moments[tape.draw(moments.len() as u64) as usize];
+            let v = [0u8, 255, 7, 9, 32, 64, 1][tape.draw(7) as usize];
+            let off = base + bm.word_off.unwrap();
+            if off < b.len() {
+                b[off] = v;
+            }
+            format!("message {}: {} word size := {}", mi, bm.name, v)
+        }
+        6 => {
+            // header type code / size field
+            let v = tape.draw(256) as u8;
+            b[base + 15] = v;
+            format!("message {}: type code := {}", mi, v)
+        }
+        _ => {
+            // data-header dates, times and code bytes; declared sizes (lrtup) of the fixed blocks
+            match tape.draw(6) {
+                0 => {
+                    let v = [0u16, 65535, 1][tape.draw(3) as usize];
+                    put16(b, base + HEADER + 8, v);
+                    format!("message {}: data-header date := {}", mi, v)
+                }
+                1 => {
+                    let v = [u32::MAX, 86_400_000, 86_399_999][tape.draw(3) as usize];
+                    put32(b, base + HEADER + 4, v);
+                    format!("message {}: data-header time := {}", mi, v)
+                }
+                2 => {
+                    let v = [0u16, 65535][tape.draw(2) as usize];
+                    put16(b, base + 18, v);
+                    format!("message {}: message-header date := {}", mi, v)
+                }
+                3 => {
+                    let off = [16usize, 20, 21, 28, 29][tape.draw(5) as usize];
+                    let v = [0u8, 3, 4, 255, 128][tape.draw(5) as usize];
+                    if base + HEADER + off < b.len() {
+                        b[base + HEADER + off] = v;
+                    }
+                    format!("message {}: data-header code byte at {} := {}", mi, off, v)
+                }
+                _ => {
+                    let fixed: Vec<&icd::BlockMap> = t.blocks.iter().filter(|x| x.gates_off.is_none()).collect();
+                    if fixed.is_empty() {
+                        return None;
+                    }
+                    let bm = fixed[tape.draw(fixed.len() as u64) as usize];
+                    let v = [0u16, 5, 6, 20, 27, 29, 65535][tape.draw(7) as usize];
+                    put16(b, base + bm.off + 4, v);
+                    format!("message {}: {} declared block size := {}", mi, bm.name, v)
+                }
+            }
+        }
+    })
+}
+
